@@ -63,8 +63,12 @@ fn parse_allele(src: &mut &str) -> io::Result<(Option<usize>, Phasing)> {
 }
 
 fn next_allele<'a>(src: &mut &'a str) -> &'a str {
-    let (buf, rest) = match src.chars().skip(1).position(is_phasing_indicator) {
-        Some(i) => src.split_at(i + 1),
+    let (buf, rest) = match src
+        .char_indices()
+        .skip(1)
+        .find(|&(_, c)| is_phasing_indicator(c))
+    {
+        Some((i, _)) => src.split_at(i),
         None => src.split_at(src.len()),
     };
 
